@@ -1,7 +1,11 @@
 package main
 
 import (
+	"bufio"
 	"crypto/sha1"
+	"io"
+	"os/exec"
+	"sync"
 	"encoding/json"
 	"fmt"
 	"os"
@@ -82,6 +86,241 @@ func loadKnown() []knownFinding {
 	return out
 }
 
+// ---------- jobs (one harness, one case of its split dimensions) ----------
+
+type SplitDim struct {
+	Name   string
+	Lo, Hi int
+}
+
+type Job struct {
+	ID   int
+	Spec HarnessSpec
+	Pins map[string]int64
+}
+
+type ObligOut struct {
+	Kind, Label, Pos string
+	Verdict, Solver  string
+	Secs             float64
+	Nodes            int
+	Values           map[string]int64 `json:",omitempty"`
+}
+
+type JobResult struct {
+	ID          int
+	Func, Pkg   string
+	Pins        map[string]int64
+	Err         string
+	Skipped     bool
+	Obligs      []ObligOut
+	Assumes     int
+	Blocks      int
+	Edges       int
+	Calls       int
+	Terms       int
+	Nondets     int
+	Funcs       []string
+	ExecSecs    float64
+	SolveSecs   float64
+	SolverTime  float64
+	FeasQueries int
+	FeasCuts    int
+	Unwind      int
+	Recur       int
+}
+
+func splitCases(dims []SplitDim) []map[string]int64 {
+	cases := []map[string]int64{{}}
+	for _, d := range dims {
+		var next []map[string]int64
+		for _, c := range cases {
+			for v := d.Lo; v <= d.Hi; v++ {
+				nc := map[string]int64{}
+				for k, x := range c {
+					nc[k] = x
+				}
+				nc[d.Name] = int64(v)
+				next = append(next, nc)
+			}
+		}
+		cases = next
+	}
+	return cases
+}
+
+// cmdWorker: reads jobs (JSON lines) on stdin, writes results (JSON lines) on stdout.
+func cmdWorker() {
+	in := bufio.NewReaderSize(os.Stdin, 1<<20)
+	out := bufio.NewWriter(os.Stdout)
+	byPkg := map[string]*loaded{}
+	solverWorkers := 2
+	if s := os.Getenv("VERIF_SOLVER_WORKERS"); s != "" {
+		solverWorkers, _ = strconv.Atoi(s)
+	}
+	tier := os.Getenv("VERIF_TIER_INTERNAL")
+	for {
+		line, err := in.ReadBytes('\n')
+		if len(line) > 1 {
+			var job Job
+			if jerr := json.Unmarshal(line, &job); jerr != nil {
+				fatal("worker: bad job: %v", jerr)
+			}
+			l := byPkg[job.Spec.Pkg]
+			if l == nil {
+				l = loadPkg(job.Spec.Pkg)
+				byPkg[job.Spec.Pkg] = l
+			}
+			so := solveOpts{workers: solverWorkers, timeoutMs: 120000, solvers: []string{"z3-new", "z3"}}
+			if tier == "thorough" {
+				so.timeoutMs = 600000
+				so.cross = "z3"
+				so.solvers = []string{"z3-new", "cvc5"}
+			}
+			pinCase = job.Pins
+			r := runHarness(l, job.Spec, so)
+			jr := JobResult{ID: job.ID, Func: job.Spec.Func, Pkg: job.Spec.Pkg, Pins: job.Pins, Err: r.Err, Skipped: r.Skipped,
+				Assumes: r.Assumes, Blocks: r.Blocks, Edges: r.Edges, Calls: r.Calls, Terms: r.Terms, Nondets: r.Nondets, Funcs: r.Funcs,
+				ExecSecs: r.ExecSecs, SolveSecs: r.SolveSecs, SolverTime: r.SolverTime, FeasQueries: r.FeasQueries, FeasCuts: r.FeasCuts}
+			if r.eng != nil {
+				jr.Unwind, jr.Recur = r.eng.maxUnwind, r.eng.maxRecur
+			}
+			for _, o := range r.Obligs {
+				oo := ObligOut{Kind: o.kind, Label: o.label, Pos: o.pos, Verdict: o.verdict, Solver: o.solver, Secs: o.secs, Nodes: termSizeSafe(o.cond)}
+				if o.verdict == "sat" && o.kind != "witness" && r.eng != nil {
+					oo.Values = r.eng.replayValues(o.model)
+				}
+				jr.Obligs = append(jr.Obligs, oo)
+			}
+			b, _ := json.Marshal(jr)
+			out.Write(b)
+			out.WriteByte('\n')
+			out.Flush()
+		}
+		if err != nil {
+			return
+		}
+	}
+}
+
+func runJobs(jobs []Job, tier string) []JobResult {
+	nw := 16
+	if s := os.Getenv("VERIF_WORKERS"); s != "" {
+		nw, _ = strconv.Atoi(s)
+	}
+	if nw > len(jobs) {
+		nw = len(jobs)
+	}
+	sw := 16 / nw
+	if sw < 1 {
+		sw = 1
+	}
+	results := make([]JobResult, len(jobs))
+	ch := make(chan int, len(jobs))
+	for i := range jobs {
+		ch <- i
+	}
+	close(ch)
+	self, _ := os.Executable()
+	var wg sync.WaitGroup
+	for w := 0; w < nw; w++ {
+		wg.Add(1)
+		go func() {
+			defer wg.Done()
+			var cmd *exec.Cmd
+			var stdin io.WriteCloser
+			var rd *bufio.Reader
+			start := func() bool {
+				cmd = exec.Command(self, "worker")
+				cmd.Env = append(os.Environ(), fmt.Sprintf("VERIF_SOLVER_WORKERS=%d", sw), "VERIF_TIER_INTERNAL="+tier)
+				cmd.Stderr = os.Stderr
+				var err error
+				stdin, err = cmd.StdinPipe()
+				if err != nil {
+					return false
+				}
+				so, err := cmd.StdoutPipe()
+				if err != nil {
+					return false
+				}
+				rd = bufio.NewReaderSize(so, 1<<20)
+				return cmd.Start() == nil
+			}
+			stop := func() {
+				if cmd != nil {
+					stdin.Close()
+					cmd.Wait()
+					cmd = nil
+				}
+			}
+			defer stop()
+			for i := range ch {
+				if cmd == nil && !start() {
+					results[i] = JobResult{ID: jobs[i].ID, Func: jobs[i].Spec.Func, Pkg: jobs[i].Spec.Pkg, Pins: jobs[i].Pins, Err: "cannot start worker"}
+					continue
+				}
+				b, _ := json.Marshal(jobs[i])
+				stdin.Write(append(b, '\n'))
+				var line []byte
+				var err error
+				done := make(chan struct{})
+				curCmd := cmd
+				timedOut := false
+				limit := 240 * time.Second
+				if jobs[i].Spec.JobSecs > 0 {
+					limit = time.Duration(jobs[i].Spec.JobSecs) * time.Second
+				}
+				go func() {
+					select {
+					case <-done:
+					case <-time.After(limit):
+						timedOut = true
+						curCmd.Process.Kill()
+					}
+				}()
+				for {
+					line, err = rd.ReadBytes('\n')
+					if err != nil || (len(line) > 0 && line[0] == '{') {
+						break
+					}
+					// stray output from the worker (notes): pass through
+					os.Stdout.Write(line)
+				}
+				close(done)
+				var jr JobResult
+				if err != nil || json.Unmarshal(line, &jr) != nil {
+					msg := "worker died (out of memory or crash)"
+					if timedOut {
+						msg = fmt.Sprintf("job exceeded its %s time limit (reduced bound needed); not counted as success", limit)
+					}
+					jr = JobResult{ID: jobs[i].ID, Func: jobs[i].Spec.Func, Pkg: jobs[i].Spec.Pkg, Pins: jobs[i].Pins, Err: msg}
+					stop()
+					exec.Command("pkill", "-P", fmt.Sprint(curCmd.Process.Pid)).Run()
+				}
+				results[i] = jr
+			}
+		}()
+	}
+	wg.Wait()
+	return results
+}
+
+func pinsStr(p map[string]int64) string {
+	if len(p) == 0 {
+		return ""
+	}
+	var ks []string
+	for k := range p {
+		ks = append(ks, k)
+	}
+	sort.Strings(ks)
+	var sb strings.Builder
+	for _, k := range ks {
+		fmt.Fprintf(&sb, " %s=%d", k, p[k])
+	}
+	return " [case" + sb.String() + "]"
+}
+
 func runProperty(id, tier, only string) int {
 	t0 := time.Now()
 	var ps *PropSpec
@@ -102,109 +341,150 @@ func runProperty(id, tier, only string) int {
 	if s := os.Getenv("VERIF_SEED"); s != "" {
 		seed, _ = strconv.Atoi(s)
 	}
-	so := solveOpts{workers: 16, timeoutMs: 120000, solvers: []string{"z3-new", "z3"}}
-	if tier == "thorough" {
-		so.timeoutMs = 600000
-		so.cross = "z3"
-		so.solvers = []string{"z3-new", "cvc5"}
-	}
 	os.MkdirAll(filepath.Join(verifDir, "evidence"), 0o755)
 	os.MkdirAll(filepath.Join(verifDir, "replays"), 0o755)
 	known := loadKnown()
-	byPkg := map[string]*loaded{}
-	var results []*HarnessResult
-	violations := 0
-	var vioLines []string
-	inconclusive := 0
-	spurious := 0
-	broken := 0
-	knownHit := 0
-	var samples []interface{}
+	var jobs []Job
 	for _, hs := range specs {
 		if only != "" && !strings.Contains(hs.Func, only) {
 			continue
 		}
-		l := byPkg[hs.Pkg]
-		if l == nil {
-			l = loadPkg(hs.Pkg)
-			byPkg[hs.Pkg] = l
+		cases := splitCases(hs.Split)
+		if hs.CaseGen != nil {
+			cases = hs.CaseGen()
 		}
-		r := runHarness(l, hs, so)
-		results = append(results, r)
-		if verbose {
-			printResult(r)
+		for _, c := range cases {
+			jobs = append(jobs, Job{ID: len(jobs), Spec: hs, Pins: c})
+		}
+	}
+	results := runJobs(jobs, tier)
+	violations, inconclusive, spurious, broken, knownHit, skipped := 0, 0, 0, 0, 0, 0
+	seenVio := map[string]bool{}
+	type replayTask struct {
+		jr *JobResult
+		o  *ObligOut
+	}
+	var tasks []replayTask
+	for i := range results {
+		r := &results[i]
+		tag := r.Func + pinsStr(r.Pins)
+		if r.Skipped {
+			skipped++
+			continue
 		}
 		if r.Err != "" {
-			fmt.Printf("INCONCLUSIVE harness=%s %s\n", hs.Func, r.Err)
+			fmt.Printf("INCONCLUSIVE harness=%s %s\n", tag, r.Err)
 			inconclusive++
 			continue
 		}
-		for _, o := range r.Obligs {
-			switch o.kind {
+		for k := range r.Obligs {
+			o := &r.Obligs[k]
+			switch o.Kind {
 			case "witness":
-				if o.verdict == "unsat" {
-					fmt.Printf("BROKEN-HARNESS harness=%s witness %q is unreachable (vacuous)\n", hs.Func, o.label)
+				if o.Verdict == "unsat" {
+					fmt.Printf("BROKEN-HARNESS harness=%s witness %q is unreachable (vacuous)\n", tag, o.Label)
 					broken++
-				} else if o.verdict != "sat" {
+				} else if o.Verdict != "sat" {
 					inconclusive++
-					fmt.Printf("INCONCLUSIVE harness=%s witness %q: %s %s\n", hs.Func, o.label, o.verdict, o.solver)
+					fmt.Printf("INCONCLUSIVE harness=%s witness %q: %s %s\n", tag, o.Label, o.Verdict, o.Solver)
 				}
 			case "unwind", "limit":
-				if o.verdict != "unsat" {
+				if o.Verdict != "unsat" {
 					inconclusive++
-					fmt.Printf("INCONCLUSIVE harness=%s bound too small: %s at %s (%s)\n", hs.Func, o.label, o.pos, o.verdict)
+					fmt.Printf("INCONCLUSIVE harness=%s bound too small: %s at %s (%s)\n", tag, o.Label, o.Pos, o.Verdict)
 				}
 			default: // assert, panic, blocked
-				if o.verdict == "unsat" {
+				if o.Verdict == "unsat" {
 					continue
 				}
-				if o.verdict != "sat" {
+				if o.Verdict != "sat" {
 					inconclusive++
-					fmt.Printf("INCONCLUSIVE harness=%s %s %q at %s: %s %s\n", hs.Func, o.kind, o.label, o.pos, o.verdict, o.solver)
+					fmt.Printf("INCONCLUSIVE harness=%s %s %q at %s: %s %s\n", tag, o.Kind, o.Label, o.Pos, o.Verdict, o.Solver)
 					continue
 				}
-				// counterexample: replay natively before reporting
-				rf := &replayFile{Property: id, Pkg: hs.Pkg, Harness: hs.Func, Kind: o.kind, Label: o.label, Pos: o.pos, Values: r.eng.replayValues(o.model)}
-				jb, _ := json.MarshalIndent(rf, "", " ")
-				h := sha1.Sum(jb)
-				path := filepath.Join(verifDir, "replays", fmt.Sprintf("%s-%s-%x.json", id, hs.Func, h[:5]))
-				os.WriteFile(path, jb, 0o644)
-				nres, nout := runNative(rf, path, 120*time.Second)
-				if reproduced(o.kind, nres) {
-					// known finding?
-					isKnown := false
-					for _, kf := range known {
-						if !kf.fixed && kf.property == id && (kf.harness == "" || kf.harness == hs.Func) && (kf.label == "" || strings.Contains(o.label+" "+o.pos+" "+nres, kf.label)) {
-							isKnown = true
-							fmt.Printf("KNOWN-FINDING: property=%s %s\n", id, strings.TrimPrefix(kf.text, "finding:"))
-						}
-					}
-					if isKnown {
-						knownHit++
-						continue
-					}
-					violations++
-					line := fmt.Sprintf("VIOLATION property=%s replay=%s", id, path)
-					vioLines = append(vioLines, line)
-					fmt.Printf("%s\n  harness=%s %s %q at %s; native: %s\n", line, hs.Func, o.kind, o.label, o.pos, nres)
-				} else {
-					spurious++
-					fmt.Printf("SPURIOUS harness=%s %s %q at %s: solver model did not reproduce natively (native: %q)\n", hs.Func, o.kind, o.label, o.pos, nres)
-					if verbose {
-						fmt.Println(nout)
-					}
-					os.Remove(path)
-				}
+				tasks = append(tasks, replayTask{r, o})
 			}
 		}
 	}
-	// evidence
-	ev := buildEvidence(ps, tier, seed, results, violations, inconclusive, spurious, broken, knownHit, time.Since(t0).Seconds(), &samples)
+	// counterexamples: replay natively before reporting (one per distinct harness/kind/label/pos; at most 24)
+	type repOut struct {
+		t     replayTask
+		path  string
+		nres  string
+		nout  string
+		extra int
+	}
+	var reps []*repOut
+	byKey := map[string]*repOut{}
+	for _, t := range tasks {
+		key := t.jr.Func + "|" + t.o.Kind + "|" + t.o.Label + "|" + t.o.Pos
+		if ro, ok := byKey[key]; ok {
+			ro.extra++
+			continue
+		}
+		ro := &repOut{t: t}
+		byKey[key] = ro
+		reps = append(reps, ro)
+	}
+	if len(reps) > 24 {
+		fmt.Printf("note: %d distinct counterexample sites; replaying the first 24\n", len(reps))
+		reps = reps[:24]
+	}
+	{
+		var wg sync.WaitGroup
+		sem := make(chan struct{}, 6)
+		for _, ro := range reps {
+			wg.Add(1)
+			go func(ro *repOut) {
+				defer wg.Done()
+				sem <- struct{}{}
+				defer func() { <-sem }()
+				rf := &replayFile{Property: id, Pkg: ro.t.jr.Pkg, Harness: ro.t.jr.Func, Kind: ro.t.o.Kind, Label: ro.t.o.Label, Pos: ro.t.o.Pos, Values: ro.t.o.Values}
+				jb, _ := json.MarshalIndent(rf, "", " ")
+				h := sha1.Sum(jb)
+				ro.path = filepath.Join(verifDir, "replays", fmt.Sprintf("%s-%s-%x.json", id, ro.t.jr.Func, h[:5]))
+				os.WriteFile(ro.path, jb, 0o644)
+				ro.nres, ro.nout = runNative(rf, ro.path, 120*time.Second)
+			}(ro)
+		}
+		wg.Wait()
+	}
+	for _, ro := range reps {
+		o, r := ro.t.o, ro.t.jr
+		tag := r.Func + pinsStr(r.Pins)
+		if reproduced(o.Kind, ro.nres) {
+			isKnown := false
+			for _, kf := range known {
+				if !kf.fixed && kf.property == id && (kf.harness == "" || kf.harness == r.Func) && (kf.label == "" || strings.Contains(o.Label+" "+o.Pos+" "+ro.nres, kf.label)) {
+					isKnown = true
+					fmt.Printf("KNOWN-FINDING: property=%s %s\n", id, strings.TrimSpace(strings.TrimPrefix(kf.text, "finding:")))
+				}
+			}
+			if isKnown {
+				knownHit++
+				continue
+			}
+			violations++
+			line := fmt.Sprintf("VIOLATION property=%s replay=%s", id, ro.path)
+			if !seenVio[line] {
+				seenVio[line] = true
+				fmt.Printf("%s\n  harness=%s %s %q at %s; native: %s (+%d more cases at this site)\n", line, tag, o.Kind, o.Label, o.Pos, ro.nres, ro.extra)
+			}
+		} else {
+			spurious++
+			fmt.Printf("SPURIOUS harness=%s %s %q at %s: solver model did not reproduce natively (native: %q)\n", tag, o.Kind, o.Label, o.Pos, ro.nres)
+			if verbose {
+				fmt.Println(ro.nout)
+			}
+			os.Remove(ro.path)
+		}
+	}
+	ev := buildEvidence(ps, tier, seed, specs, results, violations, inconclusive, spurious, broken, knownHit, skipped, time.Since(t0).Seconds())
 	eb, _ := json.MarshalIndent(ev, "", " ")
 	os.WriteFile(filepath.Join(verifDir, "evidence", id+".json"), eb, 0o644)
 	os.RemoveAll(workDir)
-	fmt.Printf("property %s tier %s: harnesses=%d violations=%d inconclusive=%d spurious=%d broken=%d known=%d wall=%.1fs\n",
-		id, tier, len(results), violations, inconclusive, spurious, broken, knownHit, time.Since(t0).Seconds())
+	fmt.Printf("property %s tier %s: jobs=%d (skipped cases %d) violations=%d inconclusive=%d spurious=%d broken=%d known=%d wall=%.1fs\n",
+		id, tier, len(results), skipped, violations, inconclusive, spurious, broken, knownHit, time.Since(t0).Seconds())
 	if violations > 0 {
 		return 1
 	}
@@ -215,48 +495,103 @@ func runProperty(id, tier, only string) int {
 	return 0
 }
 
-func buildEvidence(ps *PropSpec, tier string, seed int, results []*HarnessResult, violations, inconclusive, spurious, broken, knownHit int, wall float64, samples *[]interface{}) map[string]interface{} {
+func buildEvidence(ps *PropSpec, tier string, seed int, specs []HarnessSpec, results []JobResult, violations, inconclusive, spurious, broken, knownHit, skipped int, wall float64) map[string]interface{} {
 	states, trans, obl, dis := 0, 0, 0, 0
 	solverTime := 0.0
 	funcs := map[string]bool{}
-	var harnesses []interface{}
 	var sm []interface{}
 	nontrivial := 0
-	for _, r := range results {
+	type agg struct {
+		spec                                    HarnessSpec
+		cases, skipped, blocks, edges, calls    int
+		terms, nondets, assumes, feasQ, feasCut int
+		exec, solveWall, solverCPU              float64
+		ob                                      map[string]int
+		errs                                    []string
+		unwind, recur                           int
+	}
+	aggs := map[string]*agg{}
+	var order []string
+	for _, hs := range specs {
+		if _, ok := aggs[hs.Func]; !ok {
+			aggs[hs.Func] = &agg{spec: hs, ob: map[string]int{}}
+			order = append(order, hs.Func)
+		}
+	}
+	distinct := map[string]bool{}
+	for i := range results {
+		r := &results[i]
+		a := aggs[r.Func]
+		if a == nil {
+			continue
+		}
+		a.cases++
+		if r.Skipped {
+			a.skipped++
+			continue
+		}
 		states += r.Blocks
 		trans += r.Edges
 		solverTime += r.SolverTime
-		hob := map[string]int{}
+		a.blocks += r.Blocks
+		a.edges += r.Edges
+		a.calls += r.Calls
+		a.terms += r.Terms
+		a.feasQ += r.FeasQueries
+		a.feasCut += r.FeasCuts
+		a.exec += r.ExecSecs
+		a.solveWall += r.SolveSecs
+		a.solverCPU += r.SolverTime
+		a.unwind, a.recur = r.Unwind, r.Recur
+		if r.Nondets > a.nondets {
+			a.nondets = r.Nondets
+		}
+		if r.Assumes > a.assumes {
+			a.assumes = r.Assumes
+		}
+		if r.Err != "" {
+			a.errs = append(a.errs, r.Err)
+		}
 		for _, o := range r.Obligs {
 			obl++
-			hob[o.kind+":"+o.verdict]++
-			ok := (o.kind == "witness" && o.verdict == "sat") || (o.kind != "witness" && o.verdict == "unsat")
+			a.ob[o.Kind+":"+o.Verdict]++
+			ok := (o.Kind == "witness" && o.Verdict == "sat") || (o.Kind != "witness" && o.Verdict == "unsat")
 			if ok {
 				dis++
 			}
-			if o.secs > 0.0 && termSize([]*Term{o.cond}) > 3 {
-				nontrivial++
+			if o.Nodes > 3 {
+				k := fmt.Sprintf("%s|%s|%s|%s|%s", r.Func, pinsStr(r.Pins), o.Kind, o.Label, o.Pos)
+				if !distinct[k] {
+					distinct[k] = true
+					nontrivial++
+				}
 			}
-			if len(sm) < 12 && (o.kind == "assert" || o.kind == "witness" || len(sm) < 4) {
-				sm = append(sm, map[string]interface{}{"harness": r.Spec.Func, "kind": o.kind, "label": o.label, "pos": o.pos, "verdict": o.verdict, "solver": o.solver, "secs": round3(o.secs), "term_nodes": termSizeSafe(o.cond)})
+			if len(sm) < 16 && (o.Kind == "assert" || o.Kind == "witness" || len(sm) < 4) && o.Nodes > 3 {
+				sm = append(sm, map[string]interface{}{"harness": r.Func, "case": r.Pins, "kind": o.Kind, "label": o.Label, "pos": o.Pos, "verdict": o.Verdict, "solver": o.Solver, "secs": round3(o.Secs), "term_nodes": o.Nodes})
 			}
 		}
 		for _, f := range r.Funcs {
 			funcs[f] = true
 		}
+	}
+	if len(sm) == 0 {
+		sm = append(sm, "no non-trivial obligation reached the solver")
+	}
+	var harnesses []interface{}
+	for _, fn := range order {
+		a := aggs[fn]
 		harnesses = append(harnesses, map[string]interface{}{
-			"harness": r.Spec.Func, "pkg": r.Spec.Pkg, "bounds": r.Spec.Note,
-			"unwind": r.eng.maxUnwind, "unwind_for": r.Spec.UnwindFor, "recursion": r.eng.maxRecur,
-			"block_instances": r.Blocks, "edges": r.Edges, "calls_inlined": r.Calls, "term_nodes": r.Terms,
-			"symbolic_inputs": r.Nondets, "assumptions": r.Assumes, "obligations": hob,
-			"exec_s": round3(r.ExecSecs), "solve_wall_s": round3(r.SolveSecs), "solver_cpu_s": round3(r.SolverTime), "error": r.Err,
+			"harness": fn, "pkg": a.spec.Pkg, "bounds": a.spec.Note, "case_split": a.spec.Split, "case_split_note": a.spec.CaseNote, "cases_run": a.cases - a.skipped, "cases_skipped_by_harness": a.skipped,
+			"unwind": a.unwind, "unwind_for": a.spec.UnwindFor, "recursion": a.recur,
+			"block_instances": a.blocks, "edges": a.edges, "calls_inlined": a.calls, "term_nodes": a.terms,
+			"symbolic_inputs": a.nondets, "assumptions": a.assumes, "obligations": a.ob,
+			"feasibility_queries": a.feasQ, "feasibility_cuts": a.feasCut,
+			"exec_s": round3(a.exec), "solve_wall_s": round3(a.solveWall), "solver_cpu_s": round3(a.solverCPU), "errors": a.errs,
 		})
 	}
 	var fl []string
 	for f := range funcs {
-		if !strings.Contains(f, ".v") || true {
-			fl = append(fl, f)
-		}
+		fl = append(fl, f)
 	}
 	sort.Strings(fl)
 	asm := append([]string{}, ps.Stubs...)
@@ -266,8 +601,8 @@ func buildEvidence(ps *PropSpec, tier string, seed int, results []*HarnessResult
 	asm = append(asm,
 		"go/packages + go/ssa lowering of /repo's current working tree is faithful",
 		"gosym's semantics of the SSA instructions it executes (bit-vector ints with wrap-around, guarded merge of paths, insertion-log maps, byte-vector strings)",
-		"solver verdicts (z3 4.8.12; second solver consulted on unknown, and always in thorough tier)",
-		"bounds: the verdict covers every input inside the stated bounds and nothing outside them")
+		"solver verdicts (z3 5.1.0 first, z3 4.8.12 on unknown; thorough tier: every verdict cross-checked by a second solver)",
+		"bounds: the verdict covers every input inside the stated bounds and nothing outside them; case-split dimensions are enumerated completely, every other input is symbolic")
 	cov := map[string]interface{}{
 		"states":                        states,
 		"transitions":                   trans,
@@ -277,7 +612,7 @@ func buildEvidence(ps *PropSpec, tier string, seed int, results []*HarnessResult
 		"discharged":                    dis,
 		"evaluations":                   obl,
 		"distinct_nontrivial":           nontrivial,
-		"rule":                          "one evaluation = one solver query (assertion instance, reachable-panic site, unwinding/limit assertion or reachability witness) over symbolic inputs; non-trivial = query with more than 3 term nodes that reached the solver",
+		"rule":                          "one evaluation = one solver query (assertion instance, reachable-panic site, unwinding/limit assertion or reachability witness) over symbolic inputs; distinct = different (harness, case, kind, label, position); non-trivial = the query has more than 3 term nodes",
 		"functions_encoded":             fl,
 		"harnesses":                     harnesses,
 		"solver_time_s":                 round3(solverTime),
@@ -286,7 +621,7 @@ func buildEvidence(ps *PropSpec, tier string, seed int, results []*HarnessResult
 		"broken_harnesses":              broken,
 		"known_findings_hit":            knownHit,
 		"checker_cmd":                   "./bin/vcheck run " + ps.ID + " --tier " + tier,
-		"trusted_base":                  []string{"go/ssa (x/tools v0.29.0)", "gosym encoder (/verif/engine)", "z3 4.8.12 / z3 5.1.0 / cvc5 1.0.3", "harness specifications in /verif/harness"},
+		"trusted_base":                  []string{"go/ssa (x/tools v0.29.0)", "gosym encoder (/verif/engine)", "z3 5.1.0 / z3 4.8.12 / cvc5 1.0.3", "harness specifications in /verif/harness"},
 		"explanation":                   "bounded symbolic execution of the real functions (SSA built from /repo's working tree on this run); states = SSA basic-block instances executed under a guard, transitions = guarded CFG edges; each obligation is decided by an SMT solver for all inputs inside the bounds; sat models are replayed natively against the real code before being reported",
 		"exhaustive":                    false,
 	}
